@@ -335,7 +335,13 @@ static void run_case(uint64_t idx)
 		hx_count("encoder_histories_verified", 1);
 	}
 	if (!viol && m.state == M_END && !c.is_enc && expect_known && c.t != T_INDEX_DEC && c.t != T_FILEINFO_DEC) {
-		if (outacc.n != expect_plain.n || (outacc.n && memcmp(outacc.p, expect_plain.p, outacc.n))) {
+		// With LZMA_CONCATENATED a history may issue LZMA_FINISH with no input left exactly at a Stream boundary
+		// although it holds more Streams back: the decoder then rightly ends there. The output is then the plaintext
+		// of the Streams consumed, i.e. a prefix of the whole (only a decoder that consumed everything owes everything).
+		bool ended_at_earlier_boundary = (c.spec.flags & LZMA_CONCATENATED) && c.g.nstreams > 1 && strm.total_in < c.src.n
+				&& outacc.n < expect_plain.n && (outacc.n == 0 || memcmp(outacc.p, expect_plain.p, outacc.n) == 0);
+		if (ended_at_earlier_boundary) hx_count("decoder_histories_ended_at_earlier_stream_boundary", 1);
+		else if (outacc.n != expect_plain.n || (outacc.n && memcmp(outacc.p, expect_plain.p, outacc.n))) {
 			snprintf(key, sizeof(key), "history-damaged-output|%s", t_names[c.t]);
 			hx_violation("C11", key, idx, "decoder history produced %zu bytes, expected %zu; %s; history %s", outacc.n, expect_plain.n, desc, hist);
 		}
